@@ -208,6 +208,9 @@ def run(repo, chk):
     ok = len(rets) == 1 and isinstance(rets[0].value, ast.Call) and norm(rets[0].value.func) in ("type(self)", "HandlerCollection") \
         and not is_name(rets[0].value, "self")
     chk.ob("R08.1", "overlay.HandlerCollection.plus:returns-new-collection", ok, pl.where, "plus builds a new collection (the current one stays as other contexts see it)")
+    from .shared import activation_integrity_obligations, plus_obligations
+    activation_integrity_obligations(repo, chk, "R08.1", "the probes another thread holds on the same functions")
+    plus_obligations(repo, chk, "R08.1", "the collection another thread or context is using is never changed or handed out twice")
     from .proceed_shape import proceed_shape
     P = proceed_shape(repo)
     pr = P.pr
